@@ -196,6 +196,21 @@ def seg_eval(t, env):
         if isinstance(c, Dep):
             return c
         return seg_eval(t[2] if c else t[3], env)
+    if op == 'mcall' and t[2] in ('endswith', 'startswith') and len(t[3]) == 1:
+        # a test of the first / last bytes of a layout: decided when those bytes are constants, dependent on the field otherwise
+        base = seg_eval(t[1], env)
+        pat = seg_eval(t[3][0], env)
+        if isinstance(base, Dep):
+            return base
+        if is_seg(base) and is_seg(pat) and all(isinstance(x, bytes) for x in pat):
+            pb = b''.join(pat)
+            n, k = seg_len(base), len(pb)
+            if k > n:
+                return False
+            part = seg_slice(base, n - k, n) if t[2] == 'endswith' else seg_slice(base, 0, k)
+            r = seg_eq(part, seg(pb))
+            return r
+        raise SegUnknown(show(t)[:120])
     if op == 'mcall' and t[2] in ('lstrip', 'rstrip', 'strip') and len(t[3]) == 1:
         # stripping bytes off a layout: how many go depends on the CONTENT of the first / last symbolic field that is reached
         base = seg_eval(t[1], env)
